@@ -385,7 +385,11 @@ func Run(cfg Config, jobs []*Job) map[int]map[Variant]*Out {
 			args = append(args, "-race")
 		}
 		args = append(args, ".")
-		exit, out, _ := runCmd(mod, 20*time.Minute, []string{"GOFLAGS=-mod=mod", "GOPROXY=off", "GOSUMDB=off", "GOTOOLCHAIN=local"}, "", "go", args...)
+		env := append([]string{}, goEnv...)
+		if gc := batchGoCache(cfg); gc != "" {
+			env = append(env, "GOCACHE="+gc)
+		}
+		exit, out, _ := runCmd(mod, 20*time.Minute, env, "", "go", args...)
 		if exit == 0 {
 			break
 		}
